@@ -561,7 +561,26 @@ def sample(sc):
             "last_schedule_history": s0.get("history"), "last_schedule_command_file": text}
 
 
+def worker_init(scratch):
+    # load the built-in libraries once so that their command classes are registered before any CLI run
+    from mpilot.program import Program
+    Program()
+
+
 RULES = {
+    "C12": "Each case = a valid generated EEMS model that ends in PrintVars + EEMSWrite (side effects pending) with "
+           "exactly one located fault taken from the stratified matrix (run i takes matrix cell i mod |matrix|: every "
+           "built-in command x {unknown command, duplicate result, each required parameter removed, undeclared "
+           "parameter, wrong value kind per parameter kind, producer of the wrong output kind, fuzzy/non-fuzzy swap}), "
+           "at a seeded position and textual order, through the library route and (30%) the in-process CLI; 8% are "
+           "unfaulted twins (the accepted side). Distinct = distinct hash of (matrix cell, command classes of the "
+           "model, fault label).",
+    "C13": "Each case = a valid generated EEMS model with sinks plus 0-2 faults chosen swarm-style from: token/byte "
+           "corruption of the command text (18 operators), CSV content faults (16), kind confusion over the extended "
+           "command x parameter matrix (stratified), SimFS errors at open/read/write/close/exists, environment-actor "
+           "steps between two file-system calls of the run, exceptions raised inside execute; library route always, "
+           "CLI route in addition for a third of the runs (plus NetCDF missing-variable and duplicate-library CLI "
+           "runs). Distinct = distinct hash of (command classes, faults).",
     "C02": "Each case = one well-typed EEMS model (typed random DAG over all 32 built-in data commands on a CSV table "
            "on the simulated disk; float/integer columns, with/without missing cells) executed under 3-8 evaluation "
            "schedules (topological, reverse and random textual orders, argument order, client histories that pull "
@@ -571,6 +590,19 @@ RULES = {
            "non-read commands.",
 }
 ASSUMPTIONS = {
+    "C12": [
+        "acceptance predicate = declaration table written from the documentation and the property statement "
+        "(/verif/mpsim/refmodel/declarations.py); string parameters are not given wrong kinds",
+        "the error must be of the documented class and its offender attribute (name/result/parameter/value/path) must "
+        "identify the injected fault; line numbers are C11's business",
+        "side effects are read off the event trace up to the moment the rejection propagates: execute entries, "
+        "write-opens on SimFS, stdout writes, file changes",
+    ],
+    "C13": [
+        "KeyboardInterrupt/SystemExit are not injected; the CLI is judged only when the library route ends in an "
+        "MPilotError (the statement is silent on how the CLI presents a SyntaxError)",
+        "faults on the model file itself (cannot be read) are outside the statement",
+    ],
     "C02": [
         "reference semantics per DESIGN.md Appendix A; the MeanToMid family follows the construction the code "
         "implements (regression oracle, not independent)",
